@@ -419,7 +419,7 @@ var c14TextPieces = []string{"a", "a", "b", "c", "0", "1", " ", "\n", "-", "\t",
 func TestC14(t *testing.T) {
 	seedNote(t)
 	StartWatchdog("C14", 60*time.Second)
-	st := NewStats("C14", "regex", "regex ASTs of the stated subset (literals, ., bracket classes with ranges and negation, \\d \\D \\s \\S, plain / non-capturing / named groups, * + ? {m} {m,} {m,n} and lazy forms on non-nullable bodies, alternation of single atoms or groups as the whole content of a group or of the regex, ^ $, numbered and named back-references to closed groups) x ASCII texts over {a b c 0 1 - space tab newline}, half of them sampled from the regex; oracles: the reference matcher on the conventional translation (spans and group bindings) and, for back-reference-free regexes, Go regexp position by position; non-trivial = the regex has a quantifier or alternation and the text has >= 1 match; distinct by (regex,text)")
+	st := NewStats("C14", "regex", "regex ASTs of the stated subset (literals, ., bracket classes with ranges and negation, \\d \\D \\s \\S, plain / non-capturing / named groups, * + ? {m} {m,} {m,n} and lazy forms on non-nullable bodies, alternation of single atoms or groups as the whole content of a group or of the regex, ^ $, numbered and named back-references to closed groups) x texts over {a b c 0 1 - space tab newline} (an eighth with NUL bytes, and for regexes with back-references a quarter with multi-byte UTF-8 characters), half of them sampled from the regex; oracles: the reference matcher on the conventional translation (spans and group bindings) and, for back-reference-free regexes, Go regexp position by position; non-trivial = the regex has a quantifier or alternation and the text has >= 1 match; distinct by (regex,text)")
 	defer st.Write()
 	rapid.Check(t, func(t *rapid.T) {
 		if rapid.IntRange(0, 3).Draw(t, "afterrejected") == 0 {
@@ -472,6 +472,21 @@ func TestC14(t *testing.T) {
 		text = strings.ReplaceAll(text, "\r", "")
 		if len(text) > 14 {
 			text = text[:14]
+		}
+		// other classes of bytes: NUL for every `1`; for regexes with a back-reference
+		// (Go's regexp, which reads runes, is not consulted for those) multi-byte UTF-8
+		// characters for every `c` and `0`, so that repeated characters stay repeated
+		switch rapid.IntRange(0, 7).Draw(t, "databytes") {
+		case 0:
+			if strings.Contains(text, "1") {
+				text = strings.ReplaceAll(text, "1", "\x00")
+				st.Count("text_with_nul")
+			}
+		case 1, 2:
+			if re.hasRef() && strings.ContainsAny(text, "c0") {
+				text = strings.ReplaceAll(strings.ReplaceAll(text, "c", "\u00e9"), "0", "\u65e5")
+				st.Count("text_with_multibyte_characters")
+			}
 		}
 		st.Eval()
 		m := &refTracker{}
